@@ -188,6 +188,17 @@ pub fn c14(h: &mut H) {
                 u2.sort();
                 gate(h, "other_hidden_set", &bases, &iss.zk, &iss.c, ctv.as_ref(), iss.cpk.as_ref(), &u2, &k);
             }
+            // the issuer is told an EMPTY hidden set, or a larger one, for a proof made for `hidden`
+            gate(h, "hidden_set_empty", &bases, &iss.zk, &iss.c, ctv.as_ref(), iss.cpk.as_ref(), &[], &k);
+            if n > hidden.len() {
+                let mut u3 = hidden.clone();
+                u3.push((0..n).find(|i| !hidden.contains(i)).unwrap());
+                u3.sort();
+                gate(h, "hidden_set_larger", &bases, &iss.zk, &iss.c, ctv.as_ref(), iss.cpk.as_ref(), &u3, &k);
+            }
+            if hidden.len() > 1 {
+                gate(h, "hidden_set_smaller", &bases, &iss.zk, &iss.c, ctv.as_ref(), iss.cpk.as_ref(), &hidden[1..].to_vec(), &k);
+            }
             // other bases / other issuer key
             if hidden.iter().any(|&i| iss.msgs[i] != 0) {
                 // (hidden attributes all 0: the bases do not enter the statement, a^0 = 1 -- DESIGN O7)
